@@ -183,6 +183,24 @@ func (fr *Frame) callContract(bc *BoundContract, args []Val, p token.Pos) []Val 
 			}
 		}
 	}
+	// closures handed to the callee may run: the variables they capture become arbitrary
+	for _, a := range args {
+		if a.fn == nil || a.fn.param != nil {
+			continue
+		}
+		for bi, bv := range a.fn.bindings {
+			if bv.t == nil || bv.t.sort != SLoc {
+				continue
+			}
+			var pt types.Type
+			if a.fn.fn != nil && bi < len(a.fn.fn.FreeVars) {
+				pt = a.fn.fn.FreeVars[bi].Type()
+			}
+			if p, ok := pt.(*types.Pointer); ok && locCtor(def(bv.t)) == "New" {
+				fr.cx.havocLoc(fr.st, ModLoc{loc: bv.t, typ: p.Elem(), text: "captured variable"})
+			}
+		}
+	}
 	// results
 	res := fr.freshResults(bc.Sig.Results())
 	rvars := map[string]Val{}
